@@ -73,6 +73,28 @@ ENUM_COQ = {"KeyError": "EKey", "TypeError": "EType", "ValueError": "EValue", "A
             "RecursionError": "ERecursion", "Unsupported": "EUnsupported", "Other": "EOther"}
 
 
+_DISPATCH = []
+
+
+def skops_dispatch(t):
+    """name of the get_state function skops' singledispatch selects for the type t (None when skops is not importable:
+    then the emitter's own isinstance chain decides, as before)"""
+    if not _DISPATCH:
+        try:
+            import skops.io  # noqa: F401  (registers every module's GET_STATE_DISPATCH_FUNCTIONS)
+            from skops.io._utils import _get_state
+            _DISPATCH.append(_get_state)
+        except Exception:  # pragma: no cover
+            _DISPATCH.append(None)
+    g = _DISPATCH[0]
+    if g is None:
+        return None
+    try:
+        return g.dispatch(t).__name__
+    except Exception:  # pragma: no cover
+        return None
+
+
 def get_module(obj):
     """skops.io._utils.get_module == pickle.whichmodule(obj, obj.__name__) (copied from there)"""
     return pickle.whichmodule(obj, obj.__name__)
@@ -253,10 +275,13 @@ class Emitter:
         if isinstance(o, property):
             self.kinds["property"] += 1
             return f"(PProp {i})"
-        mod = getattr(t, "__module__", "") or ""
-        if mod.startswith("sklearn"):
-            raise Unmodelled("sklearn object")
-        # ---- object_get_state
+        # ---- object_get_state: only when skops' own dispatch sends the type there.  scikit-learn estimators (BaseEstimator:
+        # __getstate__() = parameters + fitted attributes + _sklearn_version) and their private helpers take this path; Cython-backed
+        # objects that skops registers with a function of its own (Tree -> TreeNode, loss objects -> LossNode: ReduceNode with
+        # constructor arguments AND a state; the types registered as unsupported) are not part of the value model
+        fn = skops_dispatch(t)
+        if fn is not None and fn != "object_get_state":
+            raise Unmodelled("skops dispatches " + (t.__module__ or "") .split(".")[0] + " object to " + fn)
         try:
             json.dumps(o)
             raise Unmodelled("json-able object of type " + t.__name__)
